@@ -87,9 +87,17 @@ def overlay(draw):
         out['performance_model'] = draw(st.sampled_from(paths['performance_model']))
     if draw(st.integers(0, 5)) == 0:
         out['engine_file'] = draw(st.sampled_from(paths['engine_file']))
-    if draw(st.integers(0, 5)) == 0:
+    k = draw(st.integers(0, 9))
+    if k == 0:
         # an explicit search path under which every packaged and test file resolves
         out['path'] = [str(core.TEST_DATA), str(core.REPO / 'src' / 'AEIC' / 'data')]
+    elif k == 1:
+        # a search path with a single entry; files that are not under it are given as absolute paths
+        data = core.REPO / 'src' / 'AEIC' / 'data'
+        out['path'] = [str(core.TEST_DATA)]
+        out['performance_model'] = str(data / 'performance' / 'sample_performance_model.toml')
+        out['engine_file'] = str(data / 'engines' / 'sample_edb.xlsx')
+        out.setdefault('weather', {})['weather_data_dir'] = 'weather'
     return out
 
 
